@@ -12,7 +12,7 @@ import z3
 from symnp import Engine, Rebinder, SV, SB, SIdx, SymArray, sym_array, to_obj, _raw, arr1
 from symnp import ob as O
 from symnp.explore import Out
-from vf.common import Harness, snap, stubs, RngStub, cached_options, LoggerStub, TargetFault, col
+from vf.common import Harness, snap, stubs, RngStub, cached_options, LoggerStub, TargetFault, FaultSite, col
 
 import pybads.bads.bads as badsmod
 import importlib
@@ -41,6 +41,7 @@ class HPS(Harness):
         level = p.get("level", 0)
         cons = p.get("cons")
         fault = p.get("fault", False)
+        fsite = FaultSite(p.get("fault_kind"))
         it = p.get("iter", 5)
         opts = cached_options(D, {"complete_poll": p.get("complete_poll", False), "accelerate_mesh": p.get("accelerate", True)})
         opts["noise_size"] = math.sqrt(opts["tol_fun"]) if level == 0 else 1.0
@@ -192,6 +193,10 @@ class HPS(Harness):
 
         class FL:
             func_count = fc0
+            # the real logger's flags are fixed by BADS.__init__ (level0); auto-detected noise raises only optim_state's level
+            noise_flag = p.get("level0", level) > 0
+            he_noise_flag = p.get("level0", level) == 2
+            uncertainty_handling_level = p.get("level0", level)
             X = Xlog
             X_max_idx = M - 1
             variable_transformer = VT()
@@ -200,7 +205,7 @@ class HPS(Harness):
                 fc_before.append(s.func_count)
                 if fault and eng.choose("fault"):
                     us.append(None)
-                    raise TargetFault("target failed")
+                    fsite.fire("target failed")
                 y = eng.fresh_real("y")
                 ys.append(y)
                 us.append(snap(np.asarray(_raw(u))))
@@ -249,7 +254,9 @@ class HPS(Harness):
         exc = None
         try:
             self._poll_step_(gp)
-        except TargetFault as e:
+        except Exception as e:
+            if not fsite.raised:
+                raise
             exc = e
         n = len(ys)
         k1 = int(self.mesh_size_integer)
@@ -257,7 +264,7 @@ class HPS(Harness):
         # ---------------------------------------------------------------- C10: fault propagation
         if fault:
             faulted = [i for i, u_ in enumerate(us) if u_ is None]
-            out.ob("fault_escapes_unchanged", (exc is not None) == bool(faulted))
+            out.ob("fault_escapes_unchanged", (exc is not None) == bool(faulted) and fsite.escaped(exc))
             out.ob("no_call_after_fault", (not faulted) or faulted[0] == len(us) - 1)
         if exc is not None:
             return out
